@@ -2,8 +2,7 @@
    (prefixes table_ and _expr_, sql/pq/context.rs).  Three places make generated names collision-free:
      assign_names (sql/pq/postprocess.rs:441)      CTE names:   while name is none or already used: name = gen()
      RelVarNameAssigner::fold_rel (postprocess.rs)  FROM aliases of one SELECT: the same loop
-     anchor_split (sql/pq/anchor.rs:243)           column names at a split: a duplicate is replaced by ONE gen(),
-                                                   which is not itself checked against the names already taken
+     anchor_split (sql/pq/anchor.rs:243)           column names at a split: the same loop since fix 75c6718
    Executable definitions only; proofs in Proofs/NameGenProofs.v. *)
 From Coq Require Import List NArith Bool.
 From PV Require Import Lib.ListX Model.SqlLex Model.Literal Model.Ident.
@@ -38,28 +37,30 @@ Fixpoint assign_names (prefix : str) (decls : list (option str)) (names : list s
       end
   end.
 
-(* anchor_split: names of the columns at the split (None = wildcard / unnamed) *)
-Fixpoint split_names (prefix : str) (cols : list (option str)) (used : list str) (n : N) : list (option str) * N :=
+(* anchor_split (as repaired by 75c6718): names of the columns at the split (None = wildcard / unnamed);
+   a name already taken at this split is regenerated UNTIL UNUSED, like in the two loops above *)
+Fixpoint split_names (prefix : str) (cols : list (option str)) (used : list str) (n : N) : option (list (option str) * N) :=
   match cols with
-  | [] => ([], n)
-  | None :: cs => let '(l, n') := split_names prefix cs used n in (None :: l, n')
+  | [] => Some ([], n)
+  | None :: cs => match split_names prefix cs used n with Some (l, n') => Some (None :: l, n') | None => None end
   | Some nm :: cs =>
-      let '(nm', n1) := if mem_str nm used then (gen_name prefix n, N.succ n) else (nm, n) in
-      let '(l, n') := split_names prefix cs (nm' :: used) n1 in (Some nm' :: l, n')
+      match regen (S (S (length used))) prefix used (Some nm) n with
+      | None => None
+      | Some (nm', n1) =>
+          match split_names prefix cs (nm' :: used) n1 with Some (l, n') => Some (Some nm' :: l, n') | None => None end
+      end
   end.
 
 Fixpoint somes (l : list (option str)) : list str :=
   match l with [] => [] | Some x :: r => x :: somes r | None :: r => somes r end.
 
-(* the repaired split: regenerate until unused, like the other two places *)
-Fixpoint split_names_fixed (prefix : str) (cols : list (option str)) (used : list str) (n : N) : option (list (option str) * N) :=
+(* the code before 75c6718: a duplicate was replaced by ONE generated name, itself unchecked (kept to show what the
+   repair bought; not what prqlc does now) *)
+Fixpoint split_names_once (prefix : str) (cols : list (option str)) (used : list str) (n : N) : list (option str) * N :=
   match cols with
-  | [] => Some ([], n)
-  | None :: cs => match split_names_fixed prefix cs used n with Some (l, n') => Some (None :: l, n') | None => None end
+  | [] => ([], n)
+  | None :: cs => let '(l, n') := split_names_once prefix cs used n in (None :: l, n')
   | Some nm :: cs =>
-      match regen (S (S (length used))) prefix used (Some nm) n with
-      | None => None
-      | Some (nm', n1) =>
-          match split_names_fixed prefix cs (nm' :: used) n1 with Some (l, n') => Some (Some nm' :: l, n') | None => None end
-      end
+      let '(nm', n1) := if mem_str nm used then (gen_name prefix n, N.succ n) else (nm, n) in
+      let '(l, n') := split_names_once prefix cs (nm' :: used) n1 in (Some nm' :: l, n')
   end.
